@@ -43,6 +43,14 @@ type Engine interface {
 	Shrink(plan interface{}, try func(cand interface{}) bool) interface{}
 }
 
+// FreshProcesser is implemented by engines some of whose plans must be the
+// first thing that happens in their process.
+type FreshProcesser interface {
+	FreshProcess(plan interface{}) bool
+}
+
+const SchedSalt = schedSalt
+
 const schedSalt = 0x5ced5ced5ced5ced
 
 // RunSeeded runs plan idx of a batch.
